@@ -161,7 +161,7 @@ func (fr *Frame) invoke(ins ssa.Instruction, recv *Val, it types.Type, m *types.
 			return r
 		}
 		cands = append([]int{0}, vc.w.implementers(it.Underlying().(*types.Interface))...)
-		vc.notes = append(vc.notes, fmt.Sprintf("closed-world dispatch of %s.%s over package types", typeStr(it), m.Name()))
+		vc.notes = append(vc.notes, fmt.Sprintf("closed-world dispatch of %s.%s over package types (in %s)", typeStr(it), m.Name(), shortFuncName(fr.fn.String())))
 	}
 	var cases []dispatchCase
 	sort.Ints(cands)
@@ -370,6 +370,9 @@ func (fr *Frame) contractScope(fn *ssa.Function, args []*Val) map[string]*Val {
 	for i, p := range fn.Params {
 		if i < len(args) {
 			scope[p.Name()] = args[i]
+			if i == 0 && fn.Signature.Recv() != nil {
+				scope["self"] = args[i]
+			}
 		}
 	}
 	return scope
@@ -468,14 +471,27 @@ func (fr *Frame) havocAssigns(assigns []Clause, scope map[string]*Val, old *Stat
 				}
 			}()
 			vc.specDepth++
-			defer func() { vc.specDepth-- }()
-			if n.Kind == "slice" || (n.Kind == "call" && n.Args[0].Kind == "ident" && n.Args[0].Name == "elems") {
-				// a range of slice elements: x[lo:hi] or elems(x)
-				if n.Kind == "call" {
-					rng = env.eval(n.Args[1])
-				} else {
-					rng = env.eval(n)
+			saveReach, saveSt := fr.reach, fr.st
+			defer func() { vc.specDepth--; fr.reach, fr.st = saveReach, saveSt }()
+			if n.Kind == "call" && n.Args[0].Kind == "ident" && n.Args[0].Name == "elems" {
+				rng = env.eval(n.Args[1]) // all elements of a slice
+				return true
+			}
+			if n.Kind == "slice" {
+				// x[lo:hi], clipped to the slice: nothing outside x is named
+				x := env.eval(n.Args[0])
+				lo, hi := "0", x.L[1]
+				if n.Args[1] != nil {
+					lo = env.intOf(env.eval(n.Args[1]))
 				}
+				if n.Args[2] != nil {
+					hi = env.intOf(env.eval(n.Args[2]))
+				}
+				lo = ite(lt(lo, "0"), "0", lo)
+				hi = ite(gt(hi, x.L[1]), x.L[1], hi)
+				cnt := ite(lt(hi, lo), "0", sub(hi, lo))
+				es := intLit(int64(slots(elemOf(x.T))))
+				rng = &Val{T: x.T, L: []string{add(x.L[0], mul(lo, es)), cnt, cnt}}
 				return true
 			}
 			addr, t = env.addrOf(n)
